@@ -68,6 +68,8 @@ class LSim(mosaik_api_v3.Simulator):
         return {'e': {'po': {1, 2} if self.unser else self.n['step']}}
     def finalize(self):
         FINALIZED[self.sid] += 1
+        if self.fault and self.fault[0] == 'finalize':
+            raise ValueError('injected fault in finalize')       # (a stop() that raises: the others are stopped all the same)
 
 
 class ASim(LSim):
@@ -300,6 +302,11 @@ def cases(tier):
     for topology, faulty in (('free', 2), ('free', 0), ('pair', 1), ('chain', 2)):
         for fk, req, index in (('raise:held', 'step', 1), ('raise:held', 'step', 2), ('raise:plain:held:RuntimeError', 'step', 1), ('raise:held@3', 'step', 1)):
             out.append((topology, faulty, fk, req, index, False))
+    # a simulator whose finalize() raises, in an otherwise healthy run: run() reports it, every other simulator is finalized, the
+    # loop is closed (finding F25, repaired)
+    for topology, faulty in (('pair', 0), ('chain', 0), ('chain', 1), ('free', 2)):
+        out.append((topology, faulty, 'raise', 'finalize', 0, False))
+        out.append((topology, faulty, 'raise:plain:ValueError', 'finalize', 0, False))
     # the connection closes while the simulator's process keeps running (known finding F24)
     out.append(('pair', 0, 'close', 'step', 1, True))
     out.append(('chain', 1, 'close', 'get_data', 0, True))
@@ -325,7 +332,7 @@ def cases(tier):
 
 def run(out, info, tier, seed):
     out.checker_cmd = 'make -C coq && coqc -Q coq MV coq/Props/C14.v'
-    out.trusted_base = common.COMMON_TRUSTED + ['modelled: only the exception flow World.run/scheduler.run/shutdown over oracle outcomes (Ext/Faults.v); oracle assumption: every stop() returns',
+    out.trusted_base = common.COMMON_TRUSTED + ['modelled: only the exception flow World.run/scheduler.run/shutdown over oracle outcomes (Ext/Faults.v); World.shutdown, World.run and scheduler.run are compared with the skeleton the model assumes (harness/py2coq_sched.py); what run() raises is proved under the assumption that every stop() returns, the clean-up itself without it',
                                                 'NOT modelled, observed by fault injection only: elapsed time, process reaping, sockets, asyncio task garbage']
     out.assumptions = ['a subprocess simulator that closes its connection and keeps running is exercised with a process that closes every descriptor above 2 and sleeps (known finding F24)']
     obl, log, broken = common.check_props_file('C14', info)
